@@ -310,6 +310,10 @@ def show(t: Any) -> str:
         return f"[{show(t[2])} for .. in " + ", ".join(show(g[0]) + ("" if not g[1] else " if " + " and ".join(show(c) for c in g[1])) for g in t[3]) + "]"
     if k == "quant":
         return f"{t[1]}({show(t[2])})"
+    if k == "dictcomp":
+        return f"{{{show(t[1])}: {show(t[2])} for .. in " + ", ".join(show(g[0]) for g in t[3]) + "}"
+    if k == "item":
+        return f"{show(t[1])}[{t[2]}]"
     if k == "bag":
         return f"{t[1]}{{{', '.join(show(x) for x in t[2])}}}"
     if k == "fn":
@@ -851,7 +855,15 @@ class Evaluator:
         if isinstance(e, (ast.ListComp, ast.GeneratorExp, ast.SetComp)):
             return self.comprehension(e, fr)
         if isinstance(e, ast.DictComp):
-            return ("dictcomp", ast.unparse(e))
+            inner = Frame(fr.fn, fr.module, dict(fr.env), fr.self_cls, fr.depth)
+            gens = []
+            for i, g in enumerate(e.generators):
+                it = self.expr(g.iter, inner)
+                bound = ("bound", fr.depth, i, show(it))
+                self.bind_target(g.target, bound, inner)
+                conds = tuple(self.truthy(self.expr(c, inner)) for c in g.ifs)
+                gens.append((it, conds))
+            return ("dictcomp", self.expr(e.key, inner), self.expr(e.value, inner), tuple(gens))
         if isinstance(e, ast.Starred):
             return ("star", self.expr(e.value, fr))
         raise Unsupported(f"expression {type(e).__name__}: {ast.unparse(e)[:60]}")
@@ -1082,6 +1094,13 @@ class Evaluator:
             if name == "items" and not args and not kwargs:
                 return ("items", base)
             return ("call", ("attr", base, name), tuple(args), tuple(kwargs))
+        if isinstance(e.func, ast.Subscript):
+            # Generic[T](...) constructs the generic class
+            base = self.expr(strip_subscript(e.func), fr)
+            if base[0] == "cls":
+                c = self.model.maybe_cls(base[1])
+                if c is not None:
+                    return self.construct(c, args, kwargs, fr)
         f = self.expr(e.func, fr)
         return ("call", f, tuple(args), tuple(kwargs))
 
